@@ -3,6 +3,7 @@ run(), call(), the input tracker, the namespace an execution sets up)."""
 import json
 import os
 import sys
+import time
 
 if os.environ.get("PYTHONHASHSEED") != "0":
     # set/dict-of-str iteration order must be the same in this process and in the reference interpreters
@@ -14,6 +15,7 @@ from common import VERIF, CorrResult, Failure, dec_str, enc_opt, enc_str, parse_
 use_repo()
 import sandboxequiv_common as sc            # noqa: E402
 import sandboxequiv_gen as sg               # noqa: E402
+import sandboxequiv_limits as sl            # noqa: E402
 import sandboxequiv_ref as ref              # noqa: E402
 import translate_sandboxequiv as tr         # noqa: E402
 from translate_sandboxequiv import translate  # noqa: E402
@@ -67,6 +69,8 @@ def corpus_cases():
 
 
 def generated_cases(rng, n):
+    # the depths the generator's call chains use are the sizes around the limit constants of the tree under test
+    sg.G.DEPTHS = sorted(sl.boundary_sizes(sl.limit_constants(), 80)) or sg.G.DEPTHS
     return [sg.gen_case(rng, rng.choice(["small", "small", "large"]), exhausted_ok=rng.random() < 0.08)
             for _ in range(n)]
 
@@ -526,6 +530,27 @@ def shrink(case, sig):
         if v and v[0] == sig:
             cur, lines = cand, cand_lines
         i -= 1
+    # sizes: the smallest value of each larger integer literal that still fails (bisection; shows where the boundary is)
+    import re
+    done = 0
+    for m in list(re.finditer(r"(?<![\w.'\"])\d{1,6}(?![\w.'\"])", cur["code"])):
+        if done >= 3 or int(m.group()) < 4:
+            continue
+        lo, hi = 0, int(m.group())          # invariant: hi fails
+        start, end = m.span()
+        if cur["code"][start:end] != m.group():
+            break                           # an earlier replacement moved the text: enough
+        while hi - lo > 1 and budget > -24:
+            mid = (lo + hi) // 2
+            budget -= 1
+            cand = dict(cur, code=cur["code"][:start] + str(mid).rjust(end - start) + cur["code"][end:])
+            v = verdict(cand)
+            if v and v[0] == sig:
+                hi = mid
+            else:
+                lo = mid
+        cur = dict(cur, code=cur["code"][:start] + str(hi).rjust(end - start) + cur["code"][end:])
+        done += 1
     return cur
 
 
@@ -538,14 +563,26 @@ def search(rng, tier, broken, corr):
                     "globals (names; values of data exactly, kind of anything else), same outcome (normal, or same "
                     "exception class at the same line of the program; class only for RecursionError); then each "
                     "follow-up call(f, args) vs `target = f(args)` in that interpreter: same return value or "
-                    "exception class. A sample is re-checked against `python file.py` with nothing replaced at all",
+                    "exception class, and, when the exception is raised inside the program, the same line, and the same "
+                    "printed text. A sample is re-checked against `python file.py` with nothing replaced at all. "
+                    "Besides the grammar-based programs: a sweep over SIZES around every integer limit constant found "
+                    "in pedal/sandbox/*.py and pedal/utilities/exceptions.py of the tree under test (depth of the call "
+                    "chain under the raising frame in 11 styles, inputs read, lines printed, line/prompt/literal length, "
+                    "line of the error, globals, arguments, nested values, calls in sequence; far-beyond sizes too) and "
+                    "over ODD TEXT (\\r, \\r\\n, the other line separators, NUL, escapes, non-BMP, whitespace-only / "
+                    "-terminated) in print arguments, sep, end, write(), prompts, replies, globals, returns, arguments",
             "evaluations": 0, "distinct_nontrivial": 0, "samples": [], "skipped": {}}
     cases = list(getattr(corr, "cases", None) or corpus_cases())
     n = (700 if tier == "quick" else 12000) * (2 if broken else 1)
     cases += generated_cases(rng, n)
+    # sizes around every limit constant read from the tree under test (call-chain depth, number of inputs / lines /
+    # arguments / globals, lengths, line of the error) and text that is not printable characters + "\\n", in every channel
+    lim_cases, info["boundary_dimensions"] = sl.limit_cases(rng, tier)
+    cases += lim_cases
     refs = sc.run_reference(cases)
     failures = {}
     nt = set()
+    shrink_spent = 0.0
     for c, r in zip(cases, refs):
         if "timeout" in r:
             info["skipped"]["reference-timeout"] = info["skipped"].get("reference-timeout", 0) + 1
@@ -565,12 +602,20 @@ def search(rng, tier, broken, corr):
             info.setdefault("harness_errors", []).append("%s: %s" % (type(e).__name__, e))
             continue
         nt.add((r["outcome"][0] if r["outcome"] else "normal", len(r["events"]) > 0, len(c.get("calls", [])) > 0))
+        for tag in c.get("shape", []):
+            if tag.startswith(("limit:", "odd:", "odd-", "deep-chain")):
+                dim = ":".join(tag.split(":")[:2])
+                info.setdefault("evaluated_per_dimension", {})
+                info["evaluated_per_dimension"][dim] = info["evaluated_per_dimension"].get(dim, 0) + 1
         if v is None:
             continue
         key = json.dumps(v[0], sort_keys=True)
         if key in failures:
             continue
-        small = shrink(c, v[0])
+        # shrinking costs fresh interpreters: a defect that shows under many signatures must not turn the run into minutes
+        t_sh = time.time()
+        small = shrink(c, v[0]) if shrink_spent < (20 if tier == "quick" else 180) else c
+        shrink_spent += time.time() - t_sh
         r2 = sc.run_reference([small])[0]
         sb2 = sc.run_sandbox(small)
         v2 = sc.oracle(small, r2, sb2) or v
@@ -582,6 +627,7 @@ def search(rng, tier, broken, corr):
     # the traced reference against the completely untouched interpreter
     sample = [c for c in cases if not c.get("limit")]
     sample = rng.sample(sample, min(len(sample), 40 if tier == "quick" else 1200))
+    sample += rng.sample(lim_cases, min(len(lim_cases), 24 if tier == "quick" else 400))
     by_code = {id(c): r for c, r in zip(cases, refs)}
     from concurrent.futures import ThreadPoolExecutor
     with ThreadPoolExecutor(max_workers=8) as ex:
